@@ -5,6 +5,7 @@ mod c06;
 mod c07;
 mod c08;
 mod c09;
+mod c12;
 mod c19;
 mod evprog;
 mod rtprops;
@@ -31,6 +32,7 @@ fn main() {
             "c07" => c07::replay(case),
             "c08" => c08::replay(case),
             "c09" => c09::replay(case),
+            "c12" => c12::replay(case),
             "c19" => c19::replay(case),
             other => {
                 eprintln!("no replay for sub-command {other}");
@@ -49,6 +51,7 @@ fn main() {
         "c07" => c07::cmd(&args),
         "c08" => c08::cmd(&args),
         "c09" => c09::cmd(&args),
+        "c12" => c12::cmd(&args),
         "c19" => c19::cmd(&args),
         other => {
             eprintln!("unknown sub-command {other}");
